@@ -26,7 +26,8 @@ MANIFEST = dict(
          'addresses, junk and malformed hellos, suspending event handlers, cancellation of discover() at scripted times, address and '
          'identifier filters, callback order shuffled, timer jitter): the observed order of arrivals, consumer pops, handler returns and main-loop polls is fed to the model driver and the '
          'spas in order, return time, closed endpoint, consumer fate, found flag and queue length are compared; the threaded twin\'s '
-         '_on_discovered is compared against its own model function; direct monitors on the real locator.',
+         '_on_discovered is compared against its own model function; direct monitors on the real locator.'
+         " Since session 3: identifier + foreign static address filters; a direct oracle on the blocking locator (each spa once, first reply's fields).",
     note='Partial: the timing clauses are theorems about the lockstep tick model; real timer skew is outside (jittered runs are still '
          'compared exactly because the model accepts any schedule, and the monitors bound the return time by the skew). Hypothesis kept '
          'visible: spa identifiers contain no "|" and do not start with IOS/AND (true of SPA+MAC identifiers; id_hypothesis_needed shows '
